@@ -98,15 +98,18 @@ def check(prog, run):
             run.looked_at(m)
             # variables that may alias the incoming member: the parameter, or the result of super().on_X(param)
             alias = {m.params[1]}
-            for n in own_nodes(m.node):
-                if isinstance(n, ast.Assign) and isinstance(n.targets[0], ast.Name):
-                    v = n.value
-                    if isinstance(v, ast.Call) and isinstance(v.func, ast.Name) and v.func.id == "cast" and len(v.args) == 2:
-                        v = v.args[1]
-                    if isinstance(v, ast.Call) and isinstance(v.func, ast.Attribute) and isinstance(v.func.value, ast.Call) \
-                            and isinstance(v.func.value.func, ast.Name) and v.func.value.func.id == "super" and v.func.attr == h \
-                            and v.args and isinstance(v.args[0], ast.Name) and v.args[0].id in alias:
-                        alias.add(n.targets[0].id)
+            for _round in range(4):     # aliases of aliases (named intermediate steps), to a fixpoint
+                for n in own_nodes(m.node):
+                    if isinstance(n, ast.Assign) and isinstance(n.targets[0], ast.Name):
+                        v = n.value
+                        if isinstance(v, ast.Call) and isinstance(v.func, ast.Name) and v.func.id == "cast" and len(v.args) == 2:
+                            v = v.args[1]
+                        if isinstance(v, ast.Name) and v.id in alias:
+                            alias.add(n.targets[0].id)
+                        if isinstance(v, ast.Call) and isinstance(v.func, ast.Attribute) and isinstance(v.func.value, ast.Call) \
+                                and isinstance(v.func.value.func, ast.Name) and v.func.value.func.id == "super" and v.func.attr == h \
+                                and v.args and isinstance(v.args[0], ast.Name) and v.args[0].id in alias:
+                            alias.add(n.targets[0].id)
             for n in own_nodes(m.node):
                 if isinstance(n, ast.Attribute) and isinstance(n.ctx, ast.Store) and isinstance(n.value, ast.Name) and n.value.id in alias:
                     r.instance("%s.%s writes %s.%s" % (c.name, h, k, n.attr))
